@@ -544,6 +544,14 @@ func (fr *frame) loopCore(st *State, node ast.Node, label string, scanNodes []as
 	if len(ls.invs) == 0 && fr.contract == nil {
 		panic(unsupported(fmt.Sprintf("loop #%d in a function without contract (cannot be inlined)", ls.ord)))
 	}
+	// ghost updates attached to the loop entry: `ghost at loop[k]: target := value`
+	if fr.contract != nil {
+		for _, cl := range fr.contract.Clauses {
+			if cl.Kind == "ghost" && cl.Where == fmt.Sprintf("loop[%d]", ls.ord) {
+				fc.ghostAssign(st, fr, cl, ls.extra)
+			}
+		}
+	}
 	fr.checkInvs(st, ls, "init")
 	m := newLoopMods()
 	fr.scanMods(m, fr.info, scanNodes, fr.depth)
